@@ -1,3 +1,4 @@
+import RlboxModel.Mem
 import RlboxModel.IntConv
 import Driver.Util
 /-! Engine `conv` (C06): the model's answers to the lines of `harness/h_conv.cpp`. -/
@@ -64,6 +65,19 @@ def step (t : List String) : Option String :=
       let abi ← abiOfName abi; let ty ← baseTyOfName ty; let u ← baseTyOfName uty; let v ← parseInt? v
       if ¬ u.app.inRange v then pure "badinput" else
       pure (match convertFund (ty.guest abi) u.app v with | some r => s!"ok guest={r}" | none => "abort")
+  | ["tvtv", abi, ty, uty, v] => do
+      -- `*p_T = *p_U`: both sides are sandbox references (model: `tvCopy` on a 64-byte image filled with 0xAB,
+      -- source cell at +8, destination cell at +32, as in the harness)
+      let abi ← abiOfName abi; let ty ← baseTyOfName ty; let u ← baseTyOfName uty; let v ← parseInt? v
+      let gu := u.guest abi; let gt := ty.guest abi
+      if ¬ gu.inRange v then pure "badinput" else
+      let m0 : Mem := fun _ => 0xAB
+      let m1 := m0.write 8 (encodeLE gu.bytes (gu.toBits v))
+      match tvCopy abi ty u 32 8 m1 with
+      | none => pure "abort"
+      | some m2 =>
+        let frame := (List.range 64).all fun i => (32 ≤ i ∧ i < 32 + gt.bytes) || m2 i == m1 i
+        pure (s!"ok guest={guestValueAt abi ty 32 m2}" ++ (if frame then "" else " FRAME-BROKEN"))
   | [op, abi, ty, v] => do
       let abi ← abiOfName abi; let ty ← baseTyOfName ty; let v ← parseInt? v
       let app := ty.app; let g := ty.guest abi
